@@ -759,8 +759,8 @@ func visitAST(node *sitter.Node, sourceCode []byte, graph *CodeGraph, currentCon
 		for i := 0; i < int(node.ChildCount()); i++ {
 			if node.Child(i).Type() == "argument_list" {
 				argumentsNode := node.Child(i)
-				for j := 0; j < int(argumentsNode.ChildCount()); j++ {
-					argument := argumentsNode.Child(j)
+				for j := 0; j < int(argumentsNode.NamedChildCount()); j++ {
+					argument := argumentsNode.NamedChild(j)
 					switch argument.Type() {
 					case "identifier":
 						arguments = append(arguments, argument.Content(sourceCode))
